@@ -26,6 +26,7 @@ type item struct {
 	ctxErr  atomic.Value // string: ctx.Err() seen at the end of a healthy run
 
 	task *modules.Task
+	flap *modules.Module // Mgmt "flap": module to disable right before the panic
 
 	mu   sync.Mutex
 	rets []error // what the blocking run variants returned, in order
@@ -74,6 +75,12 @@ func (it *item) body(ctx context.Context) error {
 		}
 		if it.w.spec.AtStop {
 			<-ctx.Done()
+		}
+		if it.w.spec.Mgmt == "flap" && it.flap != nil {
+			// switched off (and, once the restart was judged, on again) without a
+			// management pass in between: the module stays online all the time
+			it.flap.Disable()
+			it.w.log.Rec("call", it.name, "Disable", nil)
 		}
 		it.w.log.Rec("panic", it.name, it.kind, map[string]any{"value": it.val.class})
 		it.val.raiseVerifPanic()
@@ -127,7 +134,11 @@ func (ww *workWorld) launch(it *item) {
 	case "startworker", "worker":
 		m.StartWorker(it.name, it.body)
 	case "serviceworker":
-		m.StartServiceWorker(it.name, svcBackoff, it.body)
+		backoff := svcBackoff
+		if ww.spec.Mgmt == "passes" && it.panics > 0 {
+			backoff = 1 // nanosecond: many restart checks while management passes run
+		}
+		m.StartServiceWorker(it.name, backoff, it.body)
 	case "task-queue", "task":
 		if it.task == nil {
 			it.task = m.NewTask(it.name, it.taskFn)
@@ -224,13 +235,32 @@ func runWorkChild(sp caseSpec, dir string) {
 	ww.base.RegisterEvent(evName, true)
 	ww.subject = modules.Register("subject", lc("subject", "prep"), lc("subject", "start"), lc("subject", "stop"), "base")
 
+	switch sp.Mgmt {
+	case "flap":
+		modules.EnableModuleManagement(func(*modules.Module) {})
+		ww.subject.Enable() // base comes up as its dependency
+	case "passes":
+		// the subject is enabled only as a dependency of "top": every management pass
+		// clears and re-marks that flag
+		modules.EnableModuleManagement(func(*modules.Module) {})
+		modules.Register("top", nil, nil, nil, "subject").Enable()
+	}
+
 	w.log.Rec("call", "driver", "Start", nil)
 	if err := modules.Start(); err != nil {
 		w.harnessProblem("modules.Start with healthy routines failed: %s", err)
 	}
 	w.log.Rec("ret", "driver", "Start", nil)
+	if sp.Mgmt != "" && !ww.subject.Online() {
+		w.harnessProblem("subject not online under module management")
+	}
 
-	s0 := w.snap()
+	// idle accounting of the subject, known by construction: nothing of its own runs
+	// (under module management a "notify of change" worker may still be winding down)
+	s0, okIdle := w.settle(snap{})
+	if !okIdle {
+		w.harnessProblem("the subject module did not reach its idle accounting (reads %+v)", s0)
+	}
 	w.keepSnap("s0_idle", s0)
 
 	// --- healthy items that run concurrently with the panic
@@ -279,7 +309,13 @@ func runWorkChild(sp caseSpec, dir string) {
 
 	// --- the panicking item(s)
 	subject := &item{w: w, name: "subject-" + sp.Kind, kind: sp.Kind, panics: sp.Repeat, val: newValue(sp.Value, "subject-"+sp.Kind)}
+	if sp.Mgmt == "flap" {
+		subject.flap = ww.subject
+	}
 	pitems := []*item{subject}
+	if sp.Mgmt == "passes" {
+		ww.runPasses(subject, s1)
+	}
 	if sp.SecondKind != "" {
 		second := &item{w: w, name: "second-" + sp.SecondKind, kind: sp.SecondKind, panics: 1, val: newValue(sp.SecondValue, "second-"+sp.SecondKind)}
 		pitems = append(pitems, second)
@@ -291,7 +327,7 @@ func runWorkChild(sp caseSpec, dir string) {
 		return
 	}
 
-	for occ := 1; occ <= sp.Repeat; occ++ {
+	for occ := 1; occ <= sp.Repeat && sp.Mgmt != "passes"; occ++ {
 		for _, it := range pitems {
 			if occ > it.panics {
 				continue
@@ -312,7 +348,15 @@ func runWorkChild(sp caseSpec, dir string) {
 	// --- afterwards: the same item runs again (restart of a service worker, re-queue
 	// of the task, fresh call of the other kinds)
 	for _, it := range pitems {
+		if sp.Mgmt == "passes" {
+			break // judged in runPasses
+		}
 		ww.observeRerun(it, s1)
+	}
+	if sp.Mgmt == "flap" {
+		ww.subject.Enable()
+		w.log.Rec("call", "driver", "Enable", nil)
+		w.count("cases_service_panic_between_disable_and_enable", 1)
 	}
 
 	// accounting once every panicking item is through
@@ -383,7 +427,14 @@ func runWorkChild(sp caseSpec, dir string) {
 func (ww *workWorld) observeOccurrence(it *item, occ int, prev snap) {
 	w := ww.world
 	v := it.val
-	if !waitFor(waitRerun, func() bool { return int(it.entered.Load()) >= occ }) {
+	if !ww.waitEntered(it, occ, waitRerun) {
+		if it.kind == "serviceworker" && occ > 1 {
+			if n, _ := inflight(); n == 0 {
+				w.check("service-not-restarted", ww.mgmtKind(it.kind), v.class, false,
+					fmt.Sprintf("after panic %d the service worker function was never entered again and no service-worker goroutine is left%s", occ-1, ww.mgmtText()), nil)
+				return
+			}
+		}
 		n, g := inflight()
 		w.undecided("not-reported", it.kind, v.class, fmt.Sprintf("the item's function was not entered (occurrence %d) within %s (%d goroutines in run paths) %s", occ, waitRerun, n, trunc(g, 300)))
 		return
@@ -456,13 +507,13 @@ func (ww *workWorld) observeRerun(it *item, prev snap) {
 	switch {
 	case it.kind == "serviceworker":
 		// restarted by portbase after the back-off (occurrence n waits n*5ms)
-		ok := waitFor(waitBegin, func() bool { return it.entered.Load() >= want })
+		ok := ww.waitEntered(it, int(want), waitBegin)
 		if !ok {
 			if n, g := inflight(); n > 0 {
 				w.undecided("service-not-restarted", it.kind, v.class, "the service worker function was not entered again yet; its goroutine is still alive: "+trunc(g, 300))
 			} else {
-				w.check("service-not-restarted", it.kind, v.class, false,
-					fmt.Sprintf("after %d panic(s) the service worker function was never entered again and no service-worker goroutine is left", it.panics), nil)
+				w.check("service-not-restarted", ww.mgmtKind(it.kind), v.class, false,
+					fmt.Sprintf("after %d panic(s) the service worker function was never entered again and no service-worker goroutine is left%s", it.panics, ww.mgmtText()), nil)
 			}
 			return
 		}
@@ -550,4 +601,94 @@ func (ww *workWorld) runAtStop(pitems, healthy []*item) {
 		}
 	}
 	w.finish()
+}
+
+// waitEntered waits until the item's function was entered n times. For a service
+// worker it gives up early when the structural witness is already there: no goroutine
+// is left in a portbase run path (the service worker's goroutine lives in
+// runServiceWorker from its launch to its end, so once gone it cannot come back).
+func (ww *workWorld) waitEntered(it *item, n int, limit time.Duration) bool {
+	lastDump := time.Now()
+	gone := false
+	waitFor(limit, func() bool {
+		if int(it.entered.Load()) >= n {
+			return true
+		}
+		if it.kind == "serviceworker" && time.Since(lastDump) > 300*time.Millisecond {
+			lastDump = time.Now()
+			if k, _ := inflight(); k == 0 && int(it.entered.Load()) < n {
+				gone = true
+				return true
+			}
+		}
+		return false
+	})
+	return !gone && int(it.entered.Load()) >= n
+}
+
+func (ww *workWorld) mgmtKind(kind string) string {
+	if ww.spec.Mgmt != "" {
+		return kind + "+mgmt-" + ww.spec.Mgmt
+	}
+	return kind
+}
+
+func (ww *workWorld) mgmtText() string {
+	switch ww.spec.Mgmt {
+	case "flap":
+		return " (module management on; the module was disabled when the worker panicked and enabled again without a management pass in between: it stayed online and was not stopping)"
+	case "passes":
+		return " (module management on; the module is enabled as a dependency and management passes that change nothing ran concurrently: it stayed online and was not stopping)"
+	}
+	return ""
+}
+
+// runPasses: a service worker that panics on each of its first N entries (back-off
+// 1 ns) while management passes that change nothing run concurrently. Every panic must
+// be followed by a restart: the function is entered N+1 times in the end.
+func (ww *workWorld) runPasses(it *item, prev snap) {
+	w := ww.world
+	stop := make(chan struct{})
+	var passes atomic.Int64
+	done := make(chan struct{}, 2)
+	for i := 0; i < 2; i++ {
+		go func() {
+			defer func() { done <- struct{}{} }()
+			for {
+				select {
+				case <-stop:
+					return
+				default:
+				}
+				_ = modules.ManageModules()
+				passes.Add(1)
+			}
+		}()
+	}
+	ww.launch(it)
+	want := it.panics + 1
+	ok := ww.waitEntered(it, want, waitRerun)
+	close(stop)
+	<-done
+	<-done
+	w.count("management_passes_during_service_panics", passes.Load())
+	w.count("panics_raised", int64(it.entered.Load())-1)
+	w.count("cases_service_panics_during_management_passes", 1)
+	w.fact("service_entries", it.entered.Load())
+	v := it.val
+	if !ok {
+		if n, g := inflight(); n > 0 {
+			w.undecided("service-not-restarted", ww.mgmtKind(it.kind), v.class, "the service worker function was not entered again yet; its goroutine is still alive: "+trunc(g, 300))
+		} else {
+			w.check("service-not-restarted", ww.mgmtKind(it.kind), v.class, false,
+				fmt.Sprintf("after panic #%d the service worker function was never entered again and no service-worker goroutine is left%s", it.entered.Load(), ww.mgmtText()), nil)
+		}
+		return
+	}
+	w.check("service-not-restarted", ww.mgmtKind(it.kind), v.class, true, "", nil)
+	w.count("service_restarts_seen", int64(it.panics))
+	if !waitFor(waitBegin, func() bool { return it.ended.Load() >= 1 }) {
+		w.note("the healthy last run of the service worker did not end")
+	}
+	_ = prev
 }
